@@ -493,6 +493,18 @@ impl<Writer: Write> Mp4Writer<Writer> {
         if self.finalized {
             return Err(Mp4WriterError::AlreadyFinalized);
         }
+        // Convert Annex B to length-prefixed format based on codec
+        // AV1 uses OBU format which doesn't need conversion
+        let converted = match self.video_codec {
+            VideoCodec::H264 => annexb_to_avcc(data),
+            VideoCodec::H265 => hevc_annexb_to_hvcc(data),
+            VideoCodec::Av1 => data.to_vec(), // AV1 OBUs passed as-is
+            VideoCodec::Vp9 => data.to_vec(), // VP9 compressed frames passed as-is
+        };
+        if converted.len() > u32::MAX as usize {
+            return Err(Mp4WriterError::DurationOverflow);
+        }
+
         // DTS must be monotonically increasing (decode order)
         if let Some(prev) = self.video_prev_pts {
             if dts <= prev {
@@ -526,18 +538,6 @@ impl<Writer: Write> Mp4Writer<Writer> {
                 });
             }
             self.video_config = config;
-        }
-
-        // Convert Annex B to length-prefixed format based on codec
-        // AV1 uses OBU format which doesn't need conversion
-        let converted = match self.video_codec {
-            VideoCodec::H264 => annexb_to_avcc(data),
-            VideoCodec::H265 => hevc_annexb_to_hvcc(data),
-            VideoCodec::Av1 => data.to_vec(), // AV1 OBUs passed as-is
-            VideoCodec::Vp9 => data.to_vec(), // VP9 compressed frames passed as-is
-        };
-        if converted.len() > u32::MAX as usize {
-            return Err(Mp4WriterError::DurationOverflow);
         }
 
         self.video_samples.push(SampleInfo {
